@@ -70,9 +70,16 @@ RVFValuesOk(r, o) ==
        LgOk(r, o, r.in[i][a][t], r.out[i][a][t], ElemBin(r.G, r.vg, i, a, t))
 WholeFValuesOk(r, o) == AttReady(o) /\ \A b \in BinsOf(r.G) : LgOk(r, o, At5(r.in, r.G, b), At5(r.out, r.G, b), b)
 
+\* Data with an asymmetric segment range (reduce_segment_range(min, max), |min| # max): the swap-segment symmetry of
+\* DataSymmetriesForBins_PET_CartesianGrid relates segment s to -s, which need not exist there (known finding
+\* C06-asymseg of the projectors), so only groupings that do not use it are judged on such data: the trivial
+\* symmetries (also the default argument of apply/undo(ProjData&)) and the switch settings with swap-segment off
+\* (names pet<mask>, bit 2 of the mask = swap segment).  A line that breaks this restriction is never explained.
+NoSwapSegment == {"trivial", "default", "pet27", "pet26", "pet3", "pet0"}
+SoundGrouping(r) == r.G.minSeg = -r.G.maxSeg \/ r.sym \in NoSwapSegment
 CallOk(r, whole, valuesOk) ==
   LET mode == ErrMode(Target(r), su, r.G, whole) IN
-  /\ GeomOk(r.G) /\ Target(r).cls # "Unknown"
+  /\ GeomOk(r.G) /\ Target(r).cls # "Unknown" /\ SoundGrouping(r)
   /\ ErrOk(mode, r.err)
   /\ (~r.err => valuesOk)
 
